@@ -18,20 +18,7 @@ def walk_ctx(t, fn, anc=()):
 
 
 def fsa_shape_ok(m):
-    f = m.tb.fn("::parser::Parser::function_static_arguments")
-    if f is None:
-        return False
-    t = m.tb.fn_term(f)
-    GA = P("(try (call P.generate_ast (param self) (ctor OperatorCategory::DefaultZero)))")
-    e = M("(seq (try (call P.get_next_token (param self))) (try (call P.check_paren (param self) (ctor Token::LeftParen))) (let ?args (call Vec::new)) (for (bind ?i) (range (lit 0 i32) (param ?n)) ?body) (try (call P.check_paren (param self) (ctor Token::RightParen))) (Ok (var ?args)))", t)
-    if e is None:
-        return False
-    body = e["?body"]
-    tailif = ("if", ("op", "lt", "i32", ("var", e["?i"]), ("op", "sub", "i32", ("param", e["?n"]), ("lit", "1", "i32"))),
-              ("try", ("call", "P.check_paren", ("param", "self"), ("ctor", "Token::Comma"))), ("unit",))
-    b1 = M(("seq", ("let", "?a", GA), ("call", "Vec::push", ("var", e["?args"]), ("var", "?a")), tailif), body)
-    b2 = M(("seq", ("call", "Vec::push", ("var", e["?args"]), GA), tailif), body)
-    return b1 is not None or b2 is not None
+    return m.fsa_shape()[0]
 
 
 def nonempty_ctor(m, ctor):
